@@ -14,8 +14,8 @@ Copy2(cx, cyy, dst, lx, hx, ly, hy, jx, jy) ==
   IF jx >= NOld(cx) \/ jy >= NOld(cyy) THEN Fail2
   ELSE LET sx == DownChunk(cx, jx)
            sy == DownChunk(cyy, jy)
-           okx == Len(sx) = hx - lx \/ Len(sx) = 1
-           oky == Len(sy) = hy - ly \/ Len(sy) = 1
+           okx == Len(sx) = hx - lx \/ (Len(sx) = 1 /\ AssignRule = "numpy")
+           oky == Len(sy) = hy - ly \/ (Len(sy) = 1 /\ AssignRule = "numpy")
        IN IF ~(okx /\ oky) THEN Fail2
           ELSE [ok |-> TRUE,
                 dest |-> [p \in DOMAIN dst |->
